@@ -50,6 +50,8 @@ MC = [
     # the design that carries an acquired key over to the next poll and attests it without storing it again must break
     # the latch clause when the store step failed in between
     ("MC_KeyKeeper", "KeyKeeper_reuse.cfg", ("LatchedIsRecoverable", "AttestOnlyAfterStoreAndReadBack"), None),
+    # ... and so must the design whose read-back reports success after failed attempts
+    ("MC_KeyKeeper", "KeyKeeper_failopen.cfg", ("LatchedIsRecoverable", "AttestOnlyAfterStoreAndReadBack"), None),
 ]
 
 JOBS_QUICK = [
@@ -60,6 +62,7 @@ JOBS_QUICK = [
     ("unreadable-local-key", "none"), ("unreadable-local-key", "attest-err"), ("unreadable-local-key", "attest-lost"),
     # transient storage faults: one call of the store / read-back step fails, the next poll finds the disk healthy
     ("fresh", "store-rename-fails"), ("fresh", "readback-fails"), ("rotation", "store-create-fails"),
+    ("fresh", "readback-fails-3x"),
 ]
 JOBS_MORE = [("fresh", "store-create-fails"), ("fresh", "store-write-fails"), ("fresh", "store-rename-fails-twice"),
              ("fresh", "store-rename-fails+attest-lost"), ("rotation", "readback-fails"), ("unreadable-local-key", "store-rename-fails"),
@@ -100,9 +103,17 @@ def sweep(c, bindir, jobs, thorough, workers=8):
                 pts, n_entries = sw.baseline(sc, plan)
                 if len(pts) < 10:
                     raise util.ToolError("baseline of %s/%s yields only %d kill points" % (sc, plan, len(pts)))
-                out = []
+                if not thorough and len(pts) > 100:
+                    pts = pts[::2]          # four store/read-back rounds in one run: every second kill point in the quick tier
+                out, skipped = [], 0
                 for p in [None] + pts:
-                    out.append(sw.case(0, sc, plan, p))
+                    r = sw.case(0, sc, plan, p)
+                    if r is None:
+                        skipped += 1
+                    else:
+                        out.append(r)
+                if skipped > max(2, len(pts) // 10):
+                    raise util.ToolError("%s/%s: the storage fault could not be placed in %d of %d runs" % (sc, plan, skipped, len(pts) + 1))
                 results[job] = (out, n_entries)
         finally:
             sw.close(keep=bool(os.environ.get("VERIF_KEEP")))
@@ -183,7 +194,10 @@ def run(c):
             for d in (0, -1, 1, -2, 2, -3, 3, -4, 4, -5, 5, -6, 6, -8, 8):
                 if s["point"][1] + d < 1:
                     continue
-                last = sw.case(1, s["scenario"], s["plan"], (s["point"][0], s["point"][1] + d))
+                got = sw.case(1, s["scenario"], s["plan"], (s["point"][0], s["point"][1] + d))
+                if got is None:
+                    continue
+                last = got
                 if last[1]["killed_before"] == s["killed_before"] and last[1]["host_requests_first"] == s["host_requests_first"]:
                     return last
             return last
@@ -197,6 +211,8 @@ def run(c):
             if (scn, cl) in confirmed:
                 break
             again = reexecute(cases[k][1])
+            if again is None:
+                continue
             tried += 1
             v2 = decide(c, [again], "c08_replay_%d_%d" % (os.getpid(), k))[1]
             for cl2 in v2["viol"]:
@@ -241,6 +257,8 @@ def replay(c, path):
         again = sw.case(1, cs["scenario"], cs["plan"], tuple(cs["point"][:2]) if cs["point"] else None)
     finally:
         sw.close()
+    if again is None:
+        raise util.ToolError("the storage fault of the replayed case could not be placed")
     v = decide(c, [again], "c08_replayfile_%d" % os.getpid())[1]
     c.sample({"verdict": v, "summary": again[1]})
     if v["viol"]:
